@@ -70,3 +70,6 @@ def run(repo, res, tier):
     langrules.rule_g2(repo, res, an)
     langrules.rule_s1(repo, res, an, "own")
     langrules.rule_n1(repo, res, an)
+    # one reader, one grammar: a parser built from a decoder alone lexes with that decoder's grammar
+    from .. import hookrules as _hk17
+    _hk17.rule_ctor_default(repo, res)
